@@ -195,9 +195,9 @@ func genProject(r *rand.Rand, o genOpts) *projSpec {
 		// references
 		pk := p.pkg(t.Pkg)
 		nr := r.IntN(5)
-		seenDefault, seenFree, seenTwins, seenCache := false, false, false, false
+		seenDefault, seenFree, seenTwins, seenCache, seenLate, seenStruct := false, false, false, false, false, false
 		for k := 0; k < nr; k++ {
-			kinds := []string{"lit", "lit", "global", "global", "nested", "default", "freevar", "predecl", "target", "twins"}
+			kinds := []string{"lit", "lit", "global", "global", "nested", "default", "freevar", "predecl", "target", "twins", "lateglobal", "structfn"}
 			if pk.Predecl {
 				kinds = append(kinds, "cacheonce")
 			}
@@ -228,6 +228,19 @@ func genProject(r *rand.Rand, o genOpts) *projSpec {
 				seenFree = true
 				ref.Name = "fv"
 				ref.Val = genValue(r, valueKinds[:14])
+			case "lateglobal":
+				if seenLate {
+					continue
+				}
+				seenLate = true
+				ref.Val = genValue(r, valueKinds[:14])
+				ref.Val2 = genValue(r, literalKinds)
+			case "structfn":
+				if seenStruct {
+					continue
+				}
+				seenStruct = true
+				ref.Val = genValue(r, literalKinds)
 			case "twins":
 				if seenTwins {
 					continue
@@ -344,9 +357,9 @@ func (p *projSpec) inputItems(t *targetSpec) map[string]string {
 	for i, r := range t.Refs {
 		shape = append(shape, r.Kind+":"+r.Name)
 		switch r.Kind {
-		case "lit", "default", "freevar", "cacheonce":
+		case "lit", "default", "freevar", "cacheonce", "structfn":
 			out[fmt.Sprintf("ref|%s|%d", t.label(), i)] = r.Val.render()
-		case "twins":
+		case "twins", "lateglobal":
 			out[fmt.Sprintf("ref|%s|%d", t.label(), i)] = r.Val.render()
 			out[fmt.Sprintf("ref2|%s|%d", t.label(), i)] = r.Val2.render()
 		case "global", "nested", "deep":
